@@ -190,9 +190,9 @@ def gen_eq(names, coqdir=None):
         if not bad and rc != 0:
             # a dependency failed: the target was not remade
             src = open(os.path.join(COQ, "GenEq", n + ".v")).read()
-            g = re.search(r"Require Gen\.(\w+)", src)
-            gvo = os.path.join(COQ, "Gen", g.group(1) + ".vo") if g else None
-            bad = gvo is None or not os.path.exists(gvo) or os.path.getmtime(gvo) > os.path.getmtime(vo)
+            gs = set(re.findall(r"\bGen\.(\w+Gen)\b", src))
+            gvos = [os.path.join(COQ, "Gen", g + ".vo") for g in gs]
+            bad = not gvos or any(not os.path.exists(g) or os.path.getmtime(g) > os.path.getmtime(vo) for g in gvos)
         if bad:
             for ext in ("o", "ok", "os"):
                 try:
